@@ -11,13 +11,24 @@
 //!   ev <cs> <vals>                 sp <slot> <cs> <vals>        none <slot>     (slot := Span::none())
 //!   rec <slot> <field name> <vals>                  span.record(name, vals.i)
 //!   en <slot>   ex <slot>   dr <slot>
+//!   fol <slot> <from slot|->                        span.follows_from(from.id())   (no log call in the source)
+//!   hbs                                             nothing: only observe has_been_set()
+//!   @<k> ev ... | install <scoped|global> | uninstall | hbs       the same op on WORKER THREAD k (1..3); the main
+//!                                                   thread waits for it to finish (every op is ordered after the last)
+//!   gmid <k> <70|71|72> ev <cs> <vals>              worker k calls set_global_default and stops at the given yield
+//!                                                   point (before the CAS / before the GLOBAL_DISPATCH write / before
+//!                                                   the GLOBAL_INIT store); the main thread runs the event; the worker
+//!                                                   finishes.  If the point is never reached the event runs afterwards.
 //! <vals> = i=<i64> u=<u64> b=<0|1> s=<str> t=<str> m=<str>
 //!
 //! Output: one JSON object per op: the log records the recording logger received during the op, the span id (for
-//! `sp`), `has_been_set()` after the op, the number of tracing events/spans the collector saw, and the `{:?}`
+//! `sp`), `has_been_set()` after the op (on the main thread; `exists_t`: on the thread that ran the op; `exists_mid`:
+//! on the main thread inside the `gmid` window), the number of tracing events/spans the collector saw, and the `{:?}`
 //! rendering of `s` (std's, so the driver need not re-implement `<str as Debug>`).
+use std::cell::{Cell, RefCell};
 use std::fmt::Write as _;
-use std::sync::atomic::{AtomicU64, Ordering};
+use std::sync::atomic::{AtomicBool, AtomicU64, Ordering};
+use std::sync::mpsc::{channel, Receiver, Sender};
 use std::sync::{Arc, Mutex};
 use tracing::span::{EnteredSpan, Id};
 use tracing::{Level, Span};
@@ -224,6 +235,93 @@ enum Slot {
     Entered(EnteredSpan),
 }
 
+// ---- worker threads: each executes one command at a time and reports back; the main thread waits for the reply
+static GLOBAL_SET: AtomicBool = AtomicBool::new(false);
+enum Reply {
+    Paused,
+    Done { skip: bool, panic: bool, exists_t: bool, extra: String },
+}
+thread_local! {
+    static ARM: Cell<Option<u32>> = const { Cell::new(None) };
+    static PAUSE_TX: RefCell<Option<Sender<Reply>>> = const { RefCell::new(None) };
+    static RESUME_RX: RefCell<Option<Receiver<()>>> = const { RefCell::new(None) };
+}
+/// the yield callback: a thread that armed itself for point `id` reports `Paused` and waits to be resumed
+fn on_yield(id: u32) {
+    if ARM.with(|a| a.get()) == Some(id) {
+        ARM.with(|a| a.set(None));
+        PAUSE_TX.with(|t| t.borrow().as_ref().unwrap().send(Reply::Paused).unwrap());
+        RESUME_RX.with(|r| r.borrow().as_ref().unwrap().recv().unwrap());
+    }
+}
+struct Worker {
+    cmd: Sender<Vec<String>>,
+    resume: Sender<()>,
+    reply: Receiver<Reply>,
+}
+fn spawn_worker(rec: Rec) -> Worker {
+    let (cmd_tx, cmd_rx) = channel::<Vec<String>>();
+    let (resume_tx, resume_rx) = channel::<()>();
+    let (reply_tx, reply_rx) = channel::<Reply>();
+    std::thread::spawn(move || {
+        PAUSE_TX.with(|t| *t.borrow_mut() = Some(reply_tx.clone()));
+        RESUME_RX.with(|r| *r.borrow_mut() = Some(resume_rx));
+        let mut guard: Option<dispatch::DefaultGuard> = None;
+        let mut keep: Vec<Dispatch> = vec![];
+        while let Ok(t) = cmd_rx.recv() {
+            let mut skip = false;
+            let mut extra = String::new();
+            let r = std::panic::catch_unwind(std::panic::AssertUnwindSafe(|| match t[0].as_str() {
+                "hbs" => {}
+                "ev" => {
+                    let v = parse_vals(&t[2..]);
+                    extra = format!(",\"ds\":{}", jstr(&format!("{:?}", v.s)));
+                    emit_event(t[1].parse().unwrap(), &v);
+                }
+                "install" => {
+                    if t[1] == "scoped" {
+                        if guard.is_some() {
+                            skip = true;
+                        } else {
+                            let d = Dispatch::new(rec.clone());
+                            guard = Some(dispatch::set_default(&d));
+                            keep.push(d);
+                        }
+                    } else if GLOBAL_SET.load(Ordering::SeqCst) {
+                        skip = true;
+                    } else {
+                        let d = Dispatch::new(rec.clone());
+                        dispatch::set_global_default(d.clone()).expect("global default");
+                        keep.push(d);
+                        GLOBAL_SET.store(true, Ordering::SeqCst);
+                    }
+                }
+                "uninstall" => {
+                    if guard.is_none() {
+                        skip = true;
+                    }
+                    guard = None;
+                }
+                "gmid" => {
+                    // set_global_default, stopping at yield point t[1] (if it is reached)
+                    ARM.with(|a| a.set(Some(t[1].parse().unwrap())));
+                    let d = Dispatch::new(rec.clone());
+                    let ok = dispatch::set_global_default(d.clone()).is_ok();
+                    ARM.with(|a| a.set(None));
+                    if ok {
+                        keep.push(d);
+                        GLOBAL_SET.store(true, Ordering::SeqCst);
+                    }
+                    extra = format!(",\"gl_ok\":{}", ok);
+                }
+                _ => skip = true,
+            }));
+            let _ = reply_tx.send(Reply::Done { skip, panic: r.is_err(), exists_t: dispatch::has_been_set(), extra });
+        }
+    });
+    Worker { cmd: cmd_tx, resume: resume_tx, reply: reply_rx }
+}
+
 fn main() {
     let path = std::env::args().nth(1).expect("case file");
     let text = std::fs::read_to_string(&path).expect("read case file");
@@ -259,12 +357,77 @@ fn main() {
     let mut slots: Vec<Slot> = (0..8).map(|_| Slot::Empty).collect();
     let mut guard: Option<dispatch::DefaultGuard> = None;
     let mut keep: Vec<Dispatch> = vec![];
-    let mut global_set = false;
+    tracing_core::__verif::set_yield(Some(Box::new(on_yield)));
+    let workers: Vec<Worker> = (0..3).map(|_| spawn_worker(rec.clone())).collect();
     for (i, t) in ops.iter().enumerate() {
         let (ev0, sp0) = (sh.events.load(Ordering::SeqCst), sh.spans.load(Ordering::SeqCst));
         let mut extra = String::new();
         let mut skip = false;
+        let mut exists_t: Option<bool> = None;
+        let mut wpanic = false;
         let r = std::panic::catch_unwind(std::panic::AssertUnwindSafe(|| match t[0].as_str() {
+            w if w.starts_with('@') => {
+                let k: usize = w[1..].parse().unwrap();
+                let wk = &workers[k - 1];
+                wk.cmd.send(t[1..].to_vec()).unwrap();
+                match wk.reply.recv().unwrap() {
+                    Reply::Done { skip: s, panic: p, exists_t: e, extra: x } => {
+                        skip = s;
+                        wpanic = p;
+                        exists_t = Some(e);
+                        extra = x;
+                    }
+                    Reply::Paused => panic!("a worker paused outside gmid"),
+                }
+            }
+            "gmid" => {
+                let k: usize = t[1].parse().unwrap();
+                let wk = &workers[k - 1];
+                assert!(t[3] == "ev", "gmid runs an event");
+                let v = parse_vals(&t[5..]);
+                wk.cmd.send(vec!["gmid".to_string(), t[2].clone()]).unwrap();
+                let mut first = wk.reply.recv().unwrap();
+                let paused = matches!(first, Reply::Paused);
+                let mut mid = String::new();
+                if paused {
+                    emit_event(t[4].parse().unwrap(), &v);
+                    mid = format!(",\"exists_mid\":{}", dispatch::has_been_set());
+                    wk.resume.send(()).unwrap();
+                    first = wk.reply.recv().unwrap();
+                }
+                if let Reply::Done { panic: p, exists_t: e, extra: x, .. } = first {
+                    wpanic = p;
+                    exists_t = Some(e);
+                    extra = x;
+                }
+                if !paused {
+                    emit_event(t[4].parse().unwrap(), &v);
+                    mid = format!(",\"exists_mid\":{}", dispatch::has_been_set());
+                }
+                extra = format!("{},\"paused\":{}{},\"ds\":{}", extra, paused, mid, jstr(&format!("{:?}", v.s)));
+            }
+            "hbs" => {}
+            "fol" => {
+                let slot: usize = t[1].parse().unwrap();
+                let from: Option<Id> = if t[2] == "-" {
+                    None
+                } else {
+                    match &slots[t[2].parse::<usize>().unwrap()] {
+                        Slot::Idle(s) => s.id(),
+                        Slot::Entered(s) => s.id(),
+                        Slot::Empty => None,
+                    }
+                };
+                match &slots[slot] {
+                    Slot::Idle(s) => {
+                        s.follows_from(from);
+                    }
+                    Slot::Entered(s) => {
+                        s.follows_from(from);
+                    }
+                    Slot::Empty => skip = true,
+                }
+            }
             "dangling" => keep.push(Dispatch::new(rec.clone())),
             "install" => {
                 if t[1] == "scoped" {
@@ -275,13 +438,13 @@ fn main() {
                         guard = Some(dispatch::set_default(&d));
                         keep.push(d);
                     }
-                } else if global_set {
+                } else if GLOBAL_SET.load(Ordering::SeqCst) {
                     skip = true;
                 } else {
                     let d = Dispatch::new(rec.clone());
                     dispatch::set_global_default(d.clone()).expect("global default");
                     keep.push(d);
-                    global_set = true;
+                    GLOBAL_SET.store(true, Ordering::SeqCst);
                 }
             }
             "uninstall" => {
@@ -375,12 +538,13 @@ fn main() {
         }));
         let recs: Vec<String> = out.lock().unwrap().drain(..).collect();
         println!(
-            "{{\"k\":\"op\",\"i\":{},\"op\":\"{}\",\"skip\":{},\"panic\":{},\"exists\":{},\"evs\":{},\"spans\":{},\"recs\":[{}]{}}}",
+            "{{\"k\":\"op\",\"i\":{},\"op\":\"{}\",\"skip\":{},\"panic\":{},\"exists\":{},\"exists_t\":{},\"evs\":{},\"spans\":{},\"recs\":[{}]{}}}",
             i,
             t[0],
             skip,
-            r.is_err(),
+            r.is_err() || wpanic,
             dispatch::has_been_set(),
+            exists_t.map(|b| b.to_string()).unwrap_or_else(|| "null".into()),
             sh.events.load(Ordering::SeqCst) - ev0,
             sh.spans.load(Ordering::SeqCst) - sp0,
             recs.join(","),
